@@ -356,6 +356,7 @@ func init() {
 	reg(sdkT+".AccAddressFromBech32", func(cc *CallCtx, a []Value) []Outcome {
 		s := a[0].(*Term)
 		ok := b32okT(s)
+		noteAddr(cc.S.W, s, b32decT(s))
 		return []Outcome{
 			{Cond: ok, Ret: tuple(&BytesV{T: b32decT(s), NilT: TFalse}, &IfaceV{})},
 			{Cond: Not(ok), Ret: tuple(&BytesV{T: MkStr(""), NilT: TTrue}, newErr("bech32", nil))},
@@ -371,6 +372,7 @@ func init() {
 	})
 	reg("("+sdkT+".AccAddress).String", func(cc *CallCtx, a []Value) []Outcome {
 		b := a[0].(*BytesV)
+		noteAddr(cc.S.W, b32encT(b.T), b.T)
 		return ret1(Ite(Eq(Len(b.T), MkI(0)), MkStr(""), b32encT(b.T)))
 	})
 	reg("("+sdkT+".AccAddress).Empty", func(cc *CallCtx, a []Value) []Outcome {
@@ -527,6 +529,9 @@ func b32decT(s *Term) *Term {
 
 func b32encT(b *Term) *Term { return App("b32enc", b) }
 
+// noteAddr records an (address string, address bytes) pair so that scenarios can be made concrete.
+func noteAddr(w *World, str, bytes *Term) { w.noteEval("addr", str, bytes) }
+
 func concreteBech32OK(s string) bool {
 	// constants in the code under test that are parsed as addresses are real jkl addresses
 	return strings.HasPrefix(s, "jkl1") && len(s) == 42
@@ -556,13 +561,15 @@ func storeGet(cc *CallCtx, v *storeView, key *Term, hasOnly bool) []Outcome {
 			present := FreshVar("present."+v.store, SBool)
 			cc.S.W.LazyNext++
 			lazy := cc.S.W.LazyNext
-			val := &BytesV{T: FreshVar("raw."+v.store, SStr), NilT: TFalse, Blob: &Blob{Lazy: lazy}}
+			rawT := FreshVar("raw."+v.store, SStr)
+			val := &BytesV{T: rawT, NilT: TFalse, Blob: &Blob{Lazy: lazy}}
 			store := v.store
 			rec := func(st *State) {
 				mm := st.W.store(store)
 				mm.Reads = &baseRead{key: k, present: present, val: val, next: mm.Reads}
 				st.W.Nondet = append(st.W.Nondet, NondetEntry{Tag: fmt.Sprintf("store.%s.key%d", store, lazy), T: k, Kind: "storekey"},
-					NondetEntry{Tag: fmt.Sprintf("store.%s.present%d", store, lazy), T: present, Kind: "bool"})
+					NondetEntry{Tag: fmt.Sprintf("store.%s.present%d", store, lazy), T: present, Kind: "bool"},
+					NondetEntry{Tag: fmt.Sprintf("store.%s.raw%d", store, lazy), T: rawT, Kind: "bytes"})
 			}
 			if hasOnly {
 				outs = append(outs, Outcome{Cond: And(g.cond, present), Do: rec, Ret: TTrue})
